@@ -66,7 +66,10 @@ class WPEval:
 
     def _atom(self, node, env):
         c = callee(node) if node.get("k") in ("Call", "MethodCall") else None
-        name = "%s@%s" % ((c or node.get("name") or node.get("k")), node["s"][0])
+        if node.get("k") == "Call" and c and len(node.get("args", [])) == 1 and self._is_param(node["args"][0]):
+            name = "%s(operand)" % c  # a predicate of the operand: the same atom wherever it is asked
+        else:
+            name = "%s@%s" % ((c or node.get("name") or node.get("k")), node["s"][0])
         self.atoms[name] = node
         if name not in env["atoms"]:
             raise Unknown(name)
@@ -79,9 +82,26 @@ class WPEval:
         if p.get("k") == "Binding":
             self.alias.add(p["id"])
         vs = pat_variants(a["pat"], self.adt)
-        if vs is not None and env["V"] not in vs:
+        base, _, sub = str(env["V"]).partition(":")
+        if vs is not None and base not in vs:
             return False
+        if sub and vs is not None:
+            ops = self._sub_ops(a["pat"], base)
+            if ops is not None and sub not in ops:
+                return False
         return "guard" not in a or self.cond(a["guard"], env)
+
+    def _sub_ops(self, pat, base):
+        """for a kind written `BinaryOperator:Add`: the operators an arm pattern restricts variant `base` to (None =
+        unrestricted)"""
+        found = None
+        for p in walk(pat):
+            if p.get("k") in ("Struct", "TupleStruct") and p.get("variant") == base and (p.get("adt") or "") == self.adt:
+                ops = {q.get("variant") for q in walk(p) if q is not p and q.get("variant") and str(q.get("adt") or "").endswith("BinaryOperator")}
+                if not ops:
+                    return None
+                found = (found or set()) | ops
+        return found
 
     # ---- booleans
     def cond(self, e, env):
